@@ -357,6 +357,41 @@ Fixpoint run_hops (c : config) (st : filer) (opened : bool) (hs : list hop2) (w 
     (r, f_path st', f_temp st', w_fs w') :: run_hops c st' op' hs' w'
   end.
 
+(* ---- a relative headDirPath and a moving working directory: remake computes
+   os.path.abspath(os.path.expanduser(os.path.join(headDirPath, ...))), i.e. it resolves the head against the
+   working directory of THAT moment (a leading "~" against the home directory) and stores an absolute .path;
+   close / clear never look at the working directory again ---- *)
+Inductive hop3 :=
+| H3 (h : hop2)
+| HChdir (cwd : path).
+
+Record relhead := { rh_segs : list seg;      (* headDirPath.split('/') of a relative headDirPath *)
+                    rh_home : path }.        (* expanduser("~") *)
+
+Definition TILDE : seg := [126]%N.
+Definition resolve_head (rh : relhead) (cwd : path) : path :=
+  match rh_segs rh with
+  | s :: rest => if seg_eqb s TILDE then norm_from (rh_home rh) rest else norm_from cwd (rh_segs rh)
+  | [] => cwd
+  end.
+
+Definition with_head (c : config) (h : path) : config :=
+  {| c_name := c_name c; c_base := c_base c; c_temp := c_temp c; c_clean := c_clean c; c_filed := c_filed c;
+     c_ext := c_ext c; c_fext := c_fext c; c_head := h; c_alt := c_alt c; c_tmp := c_tmp c |}.
+
+Definition cfg_at (c : config) (rh : option relhead) (cwd : path) : config :=
+  match rh with Some r => with_head c (resolve_head r cwd) | None => c end.
+
+Fixpoint run_hops3 (c : config) (rh : option relhead) (cwd : path) (st : filer) (opened : bool)
+                   (hs : list hop3) (w : world) : list (res unit * option path * bool * fsys) :=
+  match hs with
+  | [] => []
+  | HChdir d :: hs' => (Ok tt, f_path st, f_temp st, w_fs w) :: run_hops3 c rh d st opened hs' w
+  | H3 h :: hs' =>
+    let '(r, st', op', w') := run_hop2 (cfg_at c rh cwd) st opened h w in
+    (r, f_path st', f_temp st', w_fs w') :: run_hops3 c rh cwd st' op' hs' w'
+  end.
+
 (* ---- correspondence: Filer(...) on a sandbox snapshot, an optional owner
    step that creates a file (1) or directory (2) at .path, close(clear=True) ---- *)
 Record case := { k_cfg : config;
@@ -366,7 +401,8 @@ Record case := { k_cfg : config;
                  k_owner : nat;
                  k_clear : res unit;                (* result of close(clear=True) *)
                  k_post : fsys;                     (* snapshot after it *)
-                 k_hops : list hop2;                (* history after the constructor (then no owner/clear phase) *)
+                 k_rel : option (relhead * path);   (* a relative headDirPath and the working directory at construction *)
+                 k_hops : list hop3;                (* history after the constructor (then no owner/clear phase) *)
                  k_hobs : list (res unit * option path * bool * fsys) }.   (* result, .path, .temp, snapshot after every call *)
 
 Definition entry_eqb (a b : path * fkind) : bool := path_eqb (fst a) (fst b) && fkind_eqb (snd a) (snd b).
@@ -390,7 +426,14 @@ Definition hob_eqb (a b : res unit * option path * bool * fsys) : bool :=
     res_eqb unit_eqb r r' && option_eqb path_eqb p p' && Bool.eqb t t' && same_fs fs fs'
   end.
 
+Definition rel_ok (k : case) : bool :=
+  match k_rel k with
+  | Some (rh, cwd0) => path_eqb (c_head (k_cfg k)) (resolve_head rh cwd0)
+  | None => true
+  end.
+
 Definition check_case (k : case) : bool :=
+  rel_ok k &&
   let (r, w1) := remake (k_cfg k) {| w_fs := k_pre k; w_log := [] |} in
   res_eqb path_eqb r (k_open k) && same_fs (w_fs w1) (k_mid k) &&
   match r with
@@ -401,7 +444,9 @@ Definition check_case (k : case) : bool :=
       let w2 := owner_step (k_owner k) p w1 in
       let (r2, w3) := clear (k_cfg k) p w2 in
       res_eqb unit_eqb r2 (k_clear k) && same_fs (w_fs w3) (k_post k)
-    | hs => list_eqb hob_eqb (run_hops (k_cfg k) (born (k_cfg k) p) true hs w1) (k_hobs k)
+    | hs => list_eqb hob_eqb
+              (run_hops3 (k_cfg k) (option_map fst (k_rel k)) (match k_rel k with Some (_, d) => d | None => [] end)
+                         (born (k_cfg k) p) true hs w1) (k_hobs k)
     end
   end.
 
@@ -421,10 +466,11 @@ Definition hop_branch (st st' : filer) (w w' : world) (h : hop) (r : res unit) :
     else if f_temp st' then 25 else 26
   end.
 
-Fixpoint hop_branches (c : config) (st : filer) (opened : bool) (hs : list hop2) (w : world) : list nat :=
+Fixpoint hop_branches (c : config) (st : filer) (opened : bool) (hs : list hop3) (w : world) : list nat :=
   match hs with
   | [] => []
-  | h :: hs' =>
+  | HChdir _ :: hs' => 38 :: hop_branches c st opened hs' w
+  | H3 h :: hs' =>
     let '(r, st', op', w') := run_hop2 c st opened h w in
     (match h with
      | H h' => hop_branch st st' w w' h' r
@@ -454,4 +500,4 @@ Definition case_branches (k : case) : list nat :=
     end
   | Exc _ => []
   end.
-Definition n_branches : nat := 38.
+Definition n_branches : nat := 39.
